@@ -18,9 +18,13 @@ fn dec_of(rng: &mut Rng, v: i64) -> LefDecimal {
         m /= 10;
         scale -= 1;
     }
-    // pad with trailing zeros up to 6 decimals
-    let extra = rng.below((6 - scale) as u64 + 1) as u32;
-    LefDecimal::new(m * 10i64.pow(extra), scale + extra)
+    // pad with trailing zeros: usually up to 6 decimals; one number in twelve up to 22 (what `%.16f` or a decimal type with a fixed scale
+    // prints: 1234.5000000000000000) - the value is the same, the mantissa has 19 digits and more
+    let extra = if rng.chance(1, 12) { 7 + rng.below(16) as u32 } else { rng.below((6 - scale) as u64 + 1) as u32 };
+    // (the decimal type holds 96-bit mantissas, about 7.9e28, and at most 28 decimals)
+    let digits = (m.unsigned_abs().max(1) as f64).log10().floor() as u32 + 1;
+    let extra = extra.min(26 - scale).min(27u32.saturating_sub(digits));
+    LefDecimal::from_i128_with_scale(m as i128 * 10i128.pow(extra), scale + extra)
 }
 fn coord(rng: &mut Rng) -> i64 {
     match rng.below(6) {
